@@ -193,7 +193,7 @@ fn calls_of(edges: &[(usize, usize)], kind_mask: u64) -> Vec<BCall> {
         .iter()
         .enumerate()
         .map(|(i, &(a, b))| BCall::Edge {
-            kind: if kind_mask >> i & 1 == 1 { "contains".into() } else { "logic".into() },
+            kind: if kind_mask >> (i % 64) & 1 == 1 { "contains".into() } else { "logic".into() },
             a,
             b,
         })
@@ -218,7 +218,7 @@ fn access_of_rw(n: usize, types: usize, mut code: u64, rw_mask: u64) -> (Vec<Vec
                 1 => reads[f].push(t),
                 2 => {
                     writes[f].push(t);
-                    if rw_mask >> bit & 1 == 1 {
+                    if rw_mask >> (bit % 64) & 1 == 1 {
                         reads[f].push(t);
                     }
                 }
